@@ -10,6 +10,7 @@ import (
 	"io"
 	"iter"
 	"strconv"
+	"strings"
 
 	"github.com/fluhus/biostuff/formats/bed"
 	"github.com/fluhus/biostuff/formats/fasta"
@@ -221,9 +222,45 @@ func corpusFor(fmtName string, salt int64, n int, maxRec int) []corpusInput {
 
 // longLineInput: a well-formed input with one line / token longer than 64 KiB (long reads, long names)
 func longLineInput(fmtName string, salt int64) corpusInput {
+	return lineOfLength(fmtName, salt, 70000, false)
+}
+
+// lineOfLength: a well-formed input whose middle record has one line of (about, exact = false) or exactly n bytes
+func lineOfLength(fmtName string, salt int64, n int, exact bool) corpusInput {
 	r := newRand(salt)
 	buf := &bytes.Buffer{}
-	const n = 70000
+	if exact {
+		switch fmtName {
+		case "fasta":
+			(&fasta.Fasta{Name: []byte("short"), Sequence: faRandBytes(r, 100, "\r\n>")}).Write(buf)
+			buf.WriteString(">" + strings.Repeat("n", n-1) + "\n") // name line of exactly n bytes
+			buf.Write(faRandBytes(r, n, "\r\n>"))                  // sequence line of exactly n bytes
+			buf.WriteString("\n>after\nAC\n")
+		case "fastq":
+			(&fastq.Fastq{Name: []byte("short"), Sequence: fqBytes(r, 30), Quals: fqBytes(r, 30)}).Write(buf)
+			(&fastq.Fastq{Name: fqBytes(r, n-1), Sequence: fqBytes(r, n), Quals: fqBytes(r, n)}).Write(buf)
+			(&fastq.Fastq{Name: []byte("after"), Sequence: fqBytes(r, 20), Quals: fqBytes(r, 20)}).Write(buf)
+		case "sam", "samh":
+			buf.WriteString("@HD\tVN:1.6\n")
+			samRecord(r).Write(buf)
+			samExact(r, n).Write(buf)
+			samRecord(r).Write(buf)
+		case "bed":
+			bedRecord(r, 4).Write(buf)
+			b := bedRecord(r, 4)
+			b.Name = ""
+			tmp := &bytes.Buffer{}
+			b.Write(tmp)
+			b.Name = strings.Repeat("n", max(0, n-(tmp.Len()-1)))
+			b.Write(buf)
+			bedRecord(r, 4).Write(buf)
+		case "newick":
+			nwRandTree(r, 3, false).Write(buf)
+			buf.WriteString("\n(" + strings.Repeat("x", n-2) + ",b)c;\n") // an unquoted token ending exactly at offset n of its line
+			nwRandTree(r, 4, false).Write(buf)
+		}
+		return corpusInput{fmtName, append([]byte{}, buf.Bytes()...), true}
+	}
 	switch fmtName {
 	case "fasta":
 		(&fasta.Fasta{Name: []byte("short"), Sequence: faRandBytes(r, 100, "\r\n>")}).Write(buf)
